@@ -621,8 +621,29 @@ func (c *client) Send(req *simpleRequest) {
 	select {
 	case <-c.quit:
 		req.SetResponse(newError(backendExited))
+		return
 	default:
-		c.pendingReqs <- req
+	}
+	c.pendingReqs <- req
+	// The connection may have finished between the check above and the enqueue, and
+	// its final drain may already be over: look again, and answer what is still
+	// waiting to be written (requests that were never sent), so that none is left
+	// behind without an answer.
+	select {
+	case <-c.quit:
+		c.drainPendingRequests()
+	default:
+	}
+}
+
+func (c *client) drainPendingRequests() {
+	for {
+		select {
+		case req := <-c.pendingReqs:
+			req.SetResponse(newError(backendExited))
+		default:
+			return
+		}
 	}
 }
 
